@@ -309,6 +309,8 @@ def run_trace(case, R):
         with instr.options(**s.copts), instr.capture() as ev:
             model = scen.fit(s)
     except Exception as e:
+        if not instr.is_library_exception(e):
+            raise
         R.count(f'fit raised {type(e).__name__}: {str(e)[:60]}')
         R.undecided('C08.mstep', 'fit raised')
         return
@@ -339,6 +341,8 @@ def run_trace(case, R):
             try:
                 ref = models.bayes_posterior(kind, prev, s.data, mask=s.mask if kind == 'cacgmm' else None, eps=eps)
             except Exception as ex:
+                if not instr.is_library_exception(ex):
+                    raise
                 R.undecided('C08.estep', f'oracle raised {type(ex).__name__}')
                 continue
             aff = np.asarray(e['affiliation'], dtype=float)
@@ -402,6 +406,8 @@ def run_repeat(case, R):
         m1, p1, ev1 = run(s.data, s.init, sal)
         m2, p2, ev2 = run(data_rep, init_rep, None)
     except Exception as e:
+        if not instr.is_library_exception(e):
+            raise
         R.count(f'repeat lane raised {type(e).__name__}: {str(e)[:60]}')
         R.undecided('C08.repeat', 'fit raised')
         return
@@ -448,6 +454,8 @@ def run_repeat_trainer(case, R, rng):
     try:
         m1, m2 = fit(y, sal), fit(yr, None)
     except Exception as e:
+        if not instr.is_library_exception(e):
+            raise
         R.count(f'{fam} trainer raised {type(e).__name__}')
         R.undecided('C08.repeat', 'trainer raised')
         return
@@ -468,6 +476,8 @@ def run_weights(case, R):
     try:
         got = mmu.estimate_mixture_weight(aff, saliency=sal, weight_constant_axis=wca_t if rng.uniform() < 0.7 or isinstance(wca, int) else list(wca))
     except Exception as e:
+        if not instr.is_library_exception(e):
+            raise
         R.count(f'estimate_mixture_weight raised {type(e).__name__}')
         R.ok('C08.raised')
         return
